@@ -38,18 +38,26 @@ def gen_package(r, purelib, name):
     desc = {"pkg": name, "modules": {}, "subpackages": []}
     n_sub = r.randint(1, 3)
     sub_names = r.sample(["alpha", "beta", "gamma", "delta"], n_sub)
+    # letter case is part of a module's name: some trees spell a sub-package / a module file with capitals
+    rc = __import__("random").Random(r.random())
+    if rc.random() < 0.3:
+        sub_names = [{"alpha": "Alpha2D", "beta": "BetaKit", "gamma": "Gamma", "delta": "deltaX"}[s_] if rc.random() < 0.6 else s_
+                     for s_ in sub_names]
+    cap_mods = rc.random() < 0.25
     top_imports, top_all = [], []
     for sub in sub_names:
         depth3 = r.random() < 0.3
         subpkg = "%s.%s" % (name, sub)
         desc["subpackages"].append(subpkg)
         mods = r.sample(["models", "config", "things", "ops"], r.randint(1, 2))
+        if cap_mods:
+            mods = [{"models": "Models_defs", "config": "Config", "things": "thingsV2", "ops": "OPS"}[m_] for m_ in mods]
         sub_imports, sub_all = [], []
         for m in mods:
             syms = []
             body = ["from typing import Optional, Literal, List", ""]
             for _ in range(r.randint(1, 2)):
-                cname = r.choice(["Conf", "Model", "Node", "Edge", "Thing", "Setup"]) + m.title() + sub.title()
+                cname = r.choice(["Conf", "Model", "Node", "Edge", "Thing", "Setup"]) + m.title().replace("_", "") + sub.title()
                 if cname in syms:
                     continue
                 ir = irgen.rand_ir(r, nparams=r.randint(1, 3), type_kinds=("int", "float", "str", "bool", "optional"),
@@ -59,7 +67,7 @@ def gen_package(r, purelib, name):
                 syms.append(cname)
             if r.random() < 0.4:
                 # a top-level function next to the classes, re-exported like them
-                fname = r.choice(["scale", "load", "build", "check"]) + "_" + m + "_" + sub
+                fname = r.choice(["scale", "load", "build", "check"]) + "_" + m.lower() + "_" + sub.lower()
                 fir = irgen.rand_ir(r, nparams=r.randint(1, 3), type_kinds=("int", "float", "str", "bool"),
                                     default_kinds=("int", "float", "str", "bool"), all_defaults=True, with_return=False,
                                     name=fname)
